@@ -1359,11 +1359,9 @@ func (rl *Shell) viCharSearch() {
 		skip = false
 	}
 
-	vii := rl.Iterations.Get()
-
-	for i := 1; i <= vii; i++ {
-		rl.viFindChar(forward, skip)
-	}
+	// The count, if any, is used to find the
+	// nth occurrence of the (single) argument.
+	rl.viFindChar(forward, skip)
 }
 
 // Set the specified mark at the cursor position.
@@ -1408,38 +1406,22 @@ func (rl *Shell) viEditCommandLine() {
 
 // Read a character from the keyboard, and move to the next occurrence of it in the line.
 func (rl *Shell) viFindNextChar() {
-	vii := rl.Iterations.Get()
-
-	for i := 1; i <= vii; i++ {
-		rl.viFindChar(true, false)
-	}
+	rl.viFindChar(true, false)
 }
 
 // Read a character from the keyboard, and move to the position just before the next occurrence of it in the line.
 func (rl *Shell) viFindNextCharSkip() {
-	vii := rl.Iterations.Get()
-
-	for i := 1; i <= vii; i++ {
-		rl.viFindChar(true, true)
-	}
+	rl.viFindChar(true, true)
 }
 
 // Read a character from the keyboard, and move to the previous occurrence of it in the line.
 func (rl *Shell) viFindPrevChar() {
-	vii := rl.Iterations.Get()
-
-	for i := 1; i <= vii; i++ {
-		rl.viFindChar(false, false)
-	}
+	rl.viFindChar(false, false)
 }
 
 // Read a character from the keyboard, and move to the position just after the previous occurrence of it in the line.
 func (rl *Shell) viFindPrevCharSkip() {
-	vii := rl.Iterations.Get()
-
-	for i := 1; i <= vii; i++ {
-		rl.viFindChar(false, true)
-	}
+	rl.viFindChar(false, true)
 }
 
 func (rl *Shell) viFindChar(forward, skip bool) {
